@@ -103,6 +103,7 @@ func c13Val(e refmodel.Expr, cv refmodel.Convention) string {
 }
 
 func c13Check(r *vkit.Run, in c13Input) (separated bool) {
+	r.Begin("C13", in)
 	text := c13Text(in.Tokens)
 	conv := c13Tree(in.Tokens, false)
 	if in.Tree != "" && prefix(conv) != in.Tree {
